@@ -2,7 +2,7 @@ SPECIFICATION Spec
 CONSTANT MaxBody = 4
 CONSTANT MaxIter = 6
 CONSTANT Ops = {"a", "b", "c", "d"}
-CONSTANT Cells = {0}
+CONSTANT Cells = {0, 1, 2}
 CONSTANT Shapes = {"ideal", "unless"}
 CONSTANT Deviations = {}
 INVARIANT ExactlyNTimes
